@@ -38,14 +38,14 @@ type c19env struct {
 }
 
 type c19step struct {
-	Op      string `json:"op"` // gen | rerun | user_write | user_edit
-	Inv     int    `json:"inv,omitempty"`
-	File    int    `json:"file,omitempty"`
-	How     int    `json:"how,omitempty"`
-	Fault   bool   `json:"fault,omitempty"`
-	Kind    string `json:"kind,omitempty"`
-	At      int    `json:"at,omitempty"`
-	Torn    int    `json:"torn,omitempty"`
+	Op    string `json:"op"` // gen | rerun | user_write | user_edit
+	Inv   int    `json:"inv,omitempty"`
+	File  int    `json:"file,omitempty"`
+	How   int    `json:"how,omitempty"`
+	Fault bool   `json:"fault,omitempty"`
+	Kind  string `json:"kind,omitempty"`
+	At    int    `json:"at,omitempty"`
+	Torn  int    `json:"torn,omitempty"`
 }
 
 type c19plan struct {
@@ -207,16 +207,16 @@ func (e *c19env) decode(t *tape.Tape) c19plan {
 }
 
 type c19outcome struct {
-	violated bool
-	key      string
-	detail   string
-	trace    []string
-	fired    int
-	faultKinds map[string]int
-	probes   map[string]int
-	logParts []string
+	violated            bool
+	key                 string
+	detail              string
+	trace               []string
+	fired               int
+	faultKinds          map[string]int
+	probes              map[string]int
+	logParts            []string
 	successDespiteFault []string
-	plannedReached bool // the planned fault's call index was reached (whether or not the kind applied)
+	plannedReached      bool // the planned fault's call index was reached (whether or not the kind applied)
 }
 
 func userContent(name string, v int) string {
@@ -679,7 +679,6 @@ outer:
 	res.Exhaustive = complete && job.EnumLimit == 0
 	res.Counters["enum_cases"] = cases
 }
-
 
 func replayC19(job *Job, res *Result) {
 	e := newC19(job, res, job.Replay.Alphabet)
